@@ -54,6 +54,8 @@ def cases(draw, tier):
         cfg["HALT"]["referenceMarket"] = draw(st.sampled_from(names))  # obsolete key, accepted with a warning: it changes nothing
     if draw(st.integers(0, 5)) == 0:
         cfg["HALT"]["enabled"] = False
+    if draw(st.integers(0, 3)) == 0:
+        cfg["HALT"]["class"] = "VSubTradingHaltRule"  # a user subclass that inherits every handler
     via_templates(draw, cfg, "HALT")
     second = draw(st.integers(0, 2)) == 0
     if second:
